@@ -667,6 +667,9 @@ func (m *ModSet) matcher() func(string) bool {
 				return true
 			}
 			if p == "CH" && strings.HasPrefix(key, "CH!") {
+				return key != "CH!cap" // a channel's capacity never changes
+			}
+			if p == "ONCE" && strings.HasPrefix(key, "ONCE!") {
 				return true
 			}
 		}
